@@ -6,6 +6,26 @@ ROOT = os.path.dirname(os.path.dirname(os.path.abspath(__file__)))
 
 # id -> (level category, level text, level note, technique, design ref)
 CHECKS = {
+ "C05": ("exploration",
+   "1.5e4 / 3e5 listings (Repositories, Tags, Referrers) over stacks drawn from {mem | unify(mem,mem)} + up to 4 layers of {http(page size in 1,2,3,5,1000; server max page; Link on/off; in-process or loopback), debug, select, sub}, item sets sized around multiples of the page size, start points absent / element / just before / just after / before first / beyond last / URL metacharacters, early-stopping consumers, and injected faults (k-th request fails, a member iterator fails after j items). Expected listing = sorted, de-duplicated set the harness itself stored, seen through the wrapper's view; a yield monitor flags calls after stop/error; runaway pagination is capped and reported.",
+   "Trusted: the harness's own record of what it stored. A client page size above the server's MaxListPageSize is a legitimate refusal. Under a fault the items must be a prefix and a shortened result must carry an error.",
+   "runtime monitor: known-content oracle + yield-protocol monitor + injected transport/iterator faults", "3/C05"),
+ "C06": ("exploration",
+   "1e5 / 5e6 HTTP requests in sessions of 250 against ociserver over a recording ocimem backend (10 option sets, a quarter with injected backend errors, ~5% replayed as raw bytes over loopback TCP): protocol steps chosen from state learned from responses and then mutated (method, path segments, reserved / ill-formed / over-long names, query, Range / Content-Range / Content-Length / Content-Type, bodies, failing body readers). Oracles: no panic; error bodies are JSON with a code whose table status matches; per-kind mandated success headers incl. Range vs a shadow byte count and 206 slices; every backend call has grammar-valid repository / tag / digest; every reader/writer handed out by the backend is closed when ServeHTTP returns.",
+   "Trusted: the check's own endpoint table and grammar (internal/gram), rec's close counters, the hand-transcribed code->status table. 500s as such and statuses of parse errors are not judged.",
+   "runtime monitor: recording backend + response-conformance oracle over generated hostile request sequences", "3/C06"),
+ "C10": ("exploration",
+   "A closed simulated world (fake registries and token realms, all traffic recorded, virtual clock through the verif hook) is the underlying transport of ociauth.NewStdTransport. 2e3 / 1e5 conversations of 6-12 calls plus concurrent batches over scopes from a small lattice, four credential configurations, token lifetimes {absent,1,2,3,60}s and clock steps kept 0.25 s away from expiry boundaries. Every outgoing request is judged online: token issued for that host, unexpired, scope covers required (reuse) or challenge (retry); no needless token request when a covering token has >=1.5 s left; token request asks exactly challenge U required U desired and keeps the challenge's text when nothing is added.",
+   "Trusted: authsim's own scope parser and issue log; the frozen virtual clock (ociauth.VerifFreezeClock). Sub-margin timing (inside the 1 s safety margin) is not judged.",
+   "runtime monitor: simulated peers with full traffic audit + shadow token cache + virtual time (race detector on)", "3/C10"),
+ "C11": ("fault_enumeration",
+   "Same simulated world. Every secret is a unique marker; every outgoing request (URL, all headers with Basic decoded, body) is scanned and each marker checked against its owner's allow-list. Fault space enumerated in thorough: 39 challenge-header shapes x 10 token-server replies x config lookup ok/error x 3 body kinds x 5 credential kinds (11 700 cells) x 3 interleavings over 2-3 hosts, plus concurrent batches; quick samples 3e3 conversations. Also: <=2 registry attempts per call, 401-after-fresh-token surfaced as 403 DENIED, caller's request unmodified, every body (original and GetBody products) closed on every path, no panic on any challenge header.",
+   "Trusted: authsim's scanner and call tracker. 'Named by a challenge' is read generously (malformed headers count). One recorded known finding (401 after a proactively acquired token is not rewritten) is reported as KNOWN-FINDING.",
+   "runtime monitor: secret-marker traffic scanner + request/body tracker over an enumerated fault space (race detector on)", "3/C11"),
+ "C16": ("fault_enumeration",
+   "Gated fake members behind ociunify with the concurrent read policy; the schedule space 5 entry points x {ok,fail}^2 x answer order x caller cancellation {never, before, between, after} x member style {prompt, second waits for ctx, both wait for ctx} (480 cells, 264 distinguishable schedules) is enumerated completely, each cell x10 / x500 with deliberate ties so select tie-breaks vary; order is enforced by observation, never by sleeps. Oracles: returned value is the first successful answer (error only if both failed or cancelled), every non-chosen reader closed, winner's context live until the returned reader is closed and cancelled afterwards, no goroutine left in ociunify after both members returned (goroutine dump, 2 s poll + 10 s re-check).",
+   "Trusted: the gate harness and runtime.Stack parsing. Where a cancellation and an answer are ready together either outcome is accepted.",
+   "runtime monitor: enumerated schedules over gated fakes + close/context/goroutine-leak trackers (race detector on)", "3/C16"),
  "C04": ("exploration",
    "Upload scenarios (content, partition into Write calls, chunk-size hint, subset of write boundaries with close-and-resume incl. just before Commit, resume mode at-Size / -1, fault none / wrong-offset resume / wrong commit digest) judged by a shadow of the bytes written. Enumerated completely for content lengths 0..6 (quick) / 0..9 (thorough) on ocimem and 0..5 / 0..7 over one HTTP hop; 8e3 / 2e5 sampled scenarios over loopback HTTP, two hops, debug, sub, unify and http(unify), with contents up to 5 registry chunks and hints around the 8 KiB minimum.",
    "Trusted: the shadow byte log. Resume with -1 after exactly one received byte is excluded (the property's own exclusion). A wrong-offset resume may surface at Write, Close or Commit of that writer.",
